@@ -362,8 +362,12 @@ func genC16(e *emitter, r *rng, tier string) {
 			e.emit("svc-dec-all", opDec("StatusVectorChunk", b))
 			e.emit("metric-dec-all", opDec("CCFeedbackMetricBlock", b))
 			e.emit("delta2-all", opDec("RecvDelta", b))
-			e.emit("xrchunk-all", op1("xrchunk", sn(uint64(wv))))
 		}
+	}
+	// the XR chunk accessors are cheap enough for a complete sweep in every tier (seed C16-4 differs on the single
+	// word 0x4000, which a sample of 1 500 random words misses)
+	for wv := 0; wv < 65536; wv++ {
+		e.emit("xrchunk-all", op1("xrchunk", sn(uint64(wv))))
 	}
 	for v := 0; v < 256; v++ {
 		e.emit("delta1-all", opDec("RecvDelta", []byte{byte(v)}))
